@@ -38,7 +38,7 @@ impl Prop for C10Prop {
         }
     }
     fn rule(&self) -> &'static str {
-        "sub-configuration clean: 1-6 SML files (abstract model under a firmware profile, or real meter transmissions) each framed by a real encoder, separated / followed by noise satisfying the C08 side condition; source in {slice, iterator, io::Read}, buffer in {default 8 KiB, ArrayBuf<N>, Vec}; the application draws read / next / read_nb / next_nb and the target type (DecodedBytes, File, Parser, sometimes abandoning the parser) per call and keeps polling after the end; oracle 1 = the transmitted files as read by the reference reader, noise only as counts, end of input exactly when all bytes are consumed. sub-configuration faulty: arbitrary streams (link faults, junk, cuts, Byzantine frames), oracle 2 = hand composition Decoder + parser. Non-trivial = at least two files or noise present (clean) / at least one fault (faulty); distinct = scenario fingerprint"
+        "sub-configuration clean: 1-6 SML files (abstract model under a firmware profile, or real meter transmissions) each framed by a real encoder, separated / followed by noise satisfying the C08 side condition; source in {slice, iterator, io::Read}, buffer in {default 8 KiB, ArrayBuf<N>, Vec}; the application draws read / next / read_nb / next_nb and the target type (DecodedBytes, File, Parser, sometimes abandoning the parser) per call and keeps polling after the end; oracle 1 = the transmitted files as read by the reference reader, noise only as counts, end of input exactly when all bytes are consumed. sub-configuration clean-small-buffer (a fifth of the clean runs): the static buffer is smaller than the longest file - the files that fit must still be yielded, in order, unaltered, and nothing else. sub-configuration faulty: arbitrary streams (link faults, junk, cuts, Byzantine frames), oracle 2 = hand composition Decoder + parser. Non-trivial = at least two files or noise present (clean) / at least one fault (faulty); distinct = scenario fingerprint"
     }
     fn assumptions(&self) -> Vec<&'static str> {
         vec![
@@ -48,7 +48,7 @@ impl Prop for C10Prop {
         ]
     }
     fn required_probes(&self, _tier: Tier) -> Vec<&'static str> {
-        vec!["probe.clean.files>=3", "probe.clean.trailing-noise", "probe.target.File", "probe.target.Parser", "probe.abandoned-parser", "probe.faulty.parse-error", "probe.kind.Read"]
+        vec!["probe.clean.files>=3", "probe.clean.trailing-noise", "probe.target.File", "probe.target.Parser", "probe.abandoned-parser", "probe.faulty.parse-error", "probe.kind.Read", "probe.small-buffer.file-lost", "probe.small-buffer.file-kept"]
     }
 
     fn gen(&self, rng: &mut Rng, tier: Tier) -> Scenario {
@@ -109,6 +109,15 @@ impl Prop for C10Prop {
         };
         if l.buf == BufKind::Default && need > 8192 {
             l.buf = BufKind::Vec;
+        }
+        if clean && need > 1 && rng.chance(1, 5) {
+            // a static buffer that is too small for at least the longest file: that file cannot be
+            // yielded, every file that fits still has to be (the overflow costs one transmission)
+            let below: Vec<usize> = LADDER.iter().copied().filter(|c| *c < need).collect();
+            let hi = below.len();
+            let lo = hi.saturating_sub(6);
+            l.buf = BufKind::Arr(below[rng.range(lo, hi - 1)]);
+            l.sub = "clean-small-buffer".into();
         }
         l.calls = gen_calls(rng);
         l.extra_polls = *rng.pick(&[0usize, 1, 2, 5]);
@@ -246,6 +255,81 @@ impl Prop for C10Prop {
                         ));
                         break;
                     }
+                }
+            }
+        }
+
+        // sub-configuration clean-small-buffer: files that do not fit the static buffer are lost (with
+        // whatever errors; C16 / C17 say which), every file that fits is still yielded, in order and
+        // unaltered, and nothing else is.  Side condition as for noise: the rest of a lost frame
+        // together with the noise behind it must not contain a start sequence of its own.
+        if l.sub == "clean-small-buffer" {
+            let cap = match l.buf {
+                BufKind::Arr(n) => n,
+                _ => usize::MAX,
+            };
+            let mut inside = true;
+            let mut expected: Vec<&[u8]> = Vec::new();
+            let mut lost = 0usize;
+            let mut g: Vec<u8> = Vec::new();
+            for (sg, info) in l.segs.iter().zip(built.segs.iter()) {
+                match sg {
+                    Seg::Noise(x) => g.extend_from_slice(x),
+                    Seg::Frame { payload, faults, .. } if faults.is_empty() && ref_read(payload).is_ok() => {
+                        if !noise_ok(&g) {
+                            inside = false;
+                        }
+                        g.clear();
+                        if payload.len() <= cap {
+                            expected.push(&payload.0);
+                        } else {
+                            lost += 1;
+                            g.extend_from_slice(&stream[info.start + 8..info.end]);
+                        }
+                    }
+                    _ => inside = false,
+                }
+            }
+            if !g.is_empty() && !crate::refenc::start_positions(&g).is_empty() {
+                inside = false;
+            }
+            if inside && lost > 0 {
+                st.bump("probe", "small-buffer.file-lost");
+                if !expected.is_empty() {
+                    st.bump("probe", "small-buffer.file-kept");
+                }
+                let mut next = 0usize;
+                for (k, (o, c)) in obs.iter().zip(made.iter()).enumerate() {
+                    if !matches!(o.item, Item::Msg(_) | Item::File(_) | Item::Events(..) | Item::Parse(_)) {
+                        continue;
+                    }
+                    if next >= expected.len() {
+                        violation = Some(Violation::oracle(
+                            "C10.small-buffer.extra-file",
+                            format!("{} buffer {:?}: call {} returned {} although all {} file(s) that fit the buffer had been yielded already; log:{}", l.fe.name(), l.buf, k, o.item.short(), expected.len(), show_hist(&obs)),
+                        ));
+                        break;
+                    }
+                    let want = ref_payload(expected[next], *c);
+                    next += 1;
+                    if let Some(w) = want {
+                        if w != o.item {
+                            violation = Some(Violation::oracle(
+                                "C10.small-buffer.wrong-file",
+                                format!("{} buffer {:?}: call {} returned {} where file {} of those that fit the buffer ({}) was due; log:{}", l.fe.name(), l.buf, k, o.item.short(), next, w.short(), show_hist(&obs)),
+                            ));
+                            break;
+                        }
+                    } else if !matches!(o.item, Item::Events(..) | Item::File(_)) {
+                        violation = Some(Violation::oracle("C10.small-buffer.wrong-file", format!("{}: call {} returned {} for a valid file; log:{}", l.fe.name(), k, o.item.short(), show_hist(&obs))));
+                        break;
+                    }
+                }
+                if violation.is_none() && next < expected.len() {
+                    violation = Some(Violation::oracle(
+                        "C10.small-buffer.file-not-yielded",
+                        format!("{} buffer {:?}: {} of the {} file(s) that fit the buffer were yielded before the end of input ({} file(s) do not fit and are lost); log:{}", l.fe.name(), l.buf, next, expected.len(), lost, show_hist(&obs)),
+                    ));
                 }
             }
         }
